@@ -836,6 +836,7 @@ type genCfg struct {
 	Thorough bool // only in the thorough tier
 	Quick    bool // only in the quick tier (subsumed by a thorough config)
 	Quota    int  // number of graphs taken from this config by seeded sampling (0 = all), after the per-feature picks
+	Workers  int  // TLC workers (0 = the tier's default)
 }
 
 // runTLC runs one ModuleSem configuration (retrying once when the JVM was
@@ -1118,12 +1119,12 @@ func Run(r *core.Run) {
 	}
 	// Stage 1 generator configs (Mode "gen": graphs with feature labels).
 	gens := []genCfg{
-		{Config: "ModuleSem.gwrapE.cfg", Timeout: 900, Quota: r.Pick(220, 500)},
-		{Config: "ModuleSem.gwrapC.cfg", Timeout: 900, Quota: r.Pick(120, 400)},
-		{Config: "ModuleSem.qesm.cfg", Timeout: 900, Quota: 250, Quick: true},
-		{Config: "ModuleSem.qmixed.cfg", Timeout: 900, Quota: 250, Quick: true},
-		{Config: "ModuleSem.qstar.cfg", Timeout: 900, Quota: 150, Quick: true},
-		{Config: "ModuleSem.simmixed.cfg", Simulate: fmt.Sprintf("num=%d", r.Pick(150, 1200)), Depth: 40, Timeout: 1500, Quota: r.Pick(120, 400)},
+		// quick: five JVMs side by side, 2+2+1+1+1 workers, DataLoad's JVM has the eighth
+		{Config: "ModuleSem.gwrapE.cfg", Timeout: 900, Quota: r.Pick(260, 500), Workers: r.Pick(2, 0)},
+		{Config: "ModuleSem.qmixed.cfg", Timeout: 900, Quota: 300, Quick: true, Workers: 2},
+		{Config: "ModuleSem.qesm.cfg", Timeout: 900, Quota: 300, Quick: true, Workers: 1},
+		{Config: "ModuleSem.gwrapC.cfg", Timeout: 900, Quota: r.Pick(140, 400), Workers: r.Pick(1, 0)},
+		{Config: "ModuleSem.simmixed.cfg", Simulate: fmt.Sprintf("num=%d", r.Pick(100, 1200)), Depth: 40, Timeout: 1500, Quota: r.Pick(120, 400)},
 		{Config: "ModuleSem.simesm.cfg", Simulate: "num=800", Depth: 40, Timeout: 1500, Thorough: true, Quota: 300},
 		{Config: "ModuleSem.gwrapT.cfg", Timeout: 1500, Thorough: true, Quota: 900},
 		{Config: "ModuleSem.esm2.cfg", Timeout: 1500, Thorough: true, Quota: 600},
@@ -1140,7 +1141,7 @@ func Run(r *core.Run) {
 		active = append(active, gc)
 	}
 	// the generators run side by side (<= 8 TLC workers in total)
-	par, workers := 4, 2
+	par, workers := 5, 2
 	if r.Thorough() {
 		par, workers = 2, 4
 	}
@@ -1148,7 +1149,13 @@ func Run(r *core.Run) {
 	contentsCh := make(chan []*content, 1)
 	go func() { contentsCh <- enumerateContents(r) }()
 	results := make([][]*graphSpec, len(active))
-	core.Parallel(len(active), par, func(i int) { results[i] = generate(r, active[i], workers) })
+	core.Parallel(len(active), par, func(i int) {
+		w := workers
+		if active[i].Workers > 0 {
+			w = active[i].Workers
+		}
+		results[i] = generate(r, active[i], w)
+	})
 	sel, inhabited := selectGraphs(r, active, results, r.Pick(2, 3))
 	// Stage 2: the specification runs the selected graphs
 	all := runSpec(r, sel, r.Pick(4, 4), 2)
